@@ -184,8 +184,13 @@ def main():
                     v = [l for l in out.split("\n") if l.startswith("VIOLATION")]
                     rec["checks"].append(cid)
                     if v:
-                        rec["fate"] = f"caught:{cid}" + (":no-failing-input-found" if all("no-failing-input-found" in x for x in v) else "")
-                        break
+                        concrete = not all("no-failing-input-found" in x for x in v)
+                        if concrete:
+                            rec["fate"] = f"caught:{cid}"
+                            break
+                        # reported, but without a failing input: remember it and see whether a later check finds one
+                        rec.setdefault("reported_without_input", []).append(cid)
+                        rec["fate"] = f"caught:{rec['reported_without_input'][0]}:no-failing-input-found"
         rec["secs"] = round(time.time() - t1, 1)
         sh("git checkout -- .", cwd=repo)
         log.write(json.dumps(rec) + "\n")
